@@ -43,6 +43,8 @@ Diag ==
   ELSE LET x == Trace[Len(log) + 1] IN
        IF x.e = "out" /\ x.t = "stream" /\ hq # <<>> /\ x.text = hq[1].text /\ x.parent # hq[1].origin
          THEN "stdout-parent/" \o (IF OriginOut(hq[1].origin) = "error" THEN "execute-error" ELSE "execute-ok")
+       ELSE IF x.e = "out" /\ x.t = "stream" /\ hq # <<>> /\ x.text # hq[1].text
+         THEN "stdout-lost-or-reordered"          \* the record at the head of the queue was never published
        ELSE IF x.e = "out" /\ ~x.sigok THEN "bad-signature-on-" \o x.t
        ELSE IF x.e = "out" THEN "unexpected-" \o x.t \o "-at-" \o pc
        ELSE "unexpected-" \o x.e \o "-at-" \o pc
